@@ -249,7 +249,8 @@ PROPS["C09"] = dict(
           " Attribute keys include the reserved field names (time often holding a time.Time); the caller file may lie under two path mappings; the probe destination may be re-entrant (logs through another logger inside Write, for emissions 2 and 4). Second test: two levels registered identically must print identically whether or not one was logged while unregistered."),
     assumptions=["attributes are rebuilt from the same description for every emission (the encoder sorts argument slices in place)"],
     stages=[dict(name="history", run="^TestHistoryIndependence$", quick=8000, thorough=400000, shards=16, timeout_thorough=3000),
-            dict(name="registration", run="^TestRegistrationHistory$", quick=2000, thorough=100000, shards=8, timeout_thorough=3000)],
+            dict(name="registration", run="^TestRegistrationHistory$", quick=2000, thorough=100000, shards=8, timeout_thorough=3000),
+            dict(name="crossprocess", run="^TestCrossProcess$", quick=1, thorough=1, timeout_thorough=3000)],
 )
 
 PROPS["C11"] = dict(
